@@ -93,7 +93,11 @@ func (ev *evaluator) stmt(s *Stmt) {
 		}
 		ev.vars[s.VarID] = v // the value stays on the stack as the variable's slot
 	case SPrint:
-		ev.res.Out = append(ev.res.Out, Show(ev.eval(s.X)))
+		v := ev.eval(s.X)
+		if _, isB := v.(*Block); isB {
+			ev.res.Unspecified = "a block value is printed"
+		}
+		ev.res.Out = append(ev.res.Out, Show(v))
 		ev.depth--
 	case SEval, SExpr:
 		ev.eval(s.X)
@@ -153,6 +157,12 @@ func (ev *evaluator) stmt(s *Stmt) {
 	}
 }
 
+func (ev *evaluator) truthOf(v any) {
+	if _, isB := v.(*Block); isB {
+		ev.res.Unspecified = "truth value of a block"
+	}
+}
+
 func (ev *evaluator) cur() *Block { return ev.blocks[len(ev.blocks)-1] }
 
 // push accounts for one more value on the operand stack; at is the offset of the token producing it.
@@ -183,9 +193,9 @@ func (ev *evaluator) eval(n *Node) any {
 		}
 		for i := len(ev.blocks) - 1; i >= 0; i-- {
 			if v, ok := ev.blocks[i].Fields[n.Name]; ok {
-				if _, isBlock := v.(*Block); isBlock {
-					ev.res.Unspecified = "child block read through its key"
-				}
+				// an entry of Fields is a field whatever it holds: a closed child block is read like any other
+				// value (C02: nearest block that has the name; C03: children are entries of Fields). What
+				// printing it, its truth value or an operator on it give is left open (flagged where it is used).
 				return v
 			}
 		}
@@ -209,9 +219,12 @@ func (ev *evaluator) eval(n *Node) any {
 		b.Fields[n.Name] = v
 		return v
 	case NNot:
-		return Falsey(ev.eval(n.R))
+		v := ev.eval(n.R)
+		ev.truthOf(v)
+		return Falsey(v)
 	case NAnd:
 		l := ev.eval(n.L)
+		ev.truthOf(l)
 		if Falsey(l) {
 			return l
 		}
@@ -219,6 +232,7 @@ func (ev *evaluator) eval(n *Node) any {
 		return ev.eval(n.R)
 	case NOr:
 		l := ev.eval(n.L)
+		ev.truthOf(l)
 		if Falsey(l) {
 			ev.depth--
 			return ev.eval(n.R)
